@@ -832,8 +832,16 @@ Theorem exposed_tie : forall m,
     exposed_of TDict m = smem (mname m) G_manager.exposed_dict /\
     exposed_of TValue m = smem (mname m) G_manager.exposed_value /\
     exposed_of TIter m = smem (mname m) G_manager.exposed_iter /\
+    exposed_of TAutoList m = smem (mname m) G_manager.exposed_autolist /\
     is_fallback m = smem (mname m) G_manager.fallback_names.
-Proof. destruct m; vm_compute; auto. Qed.
+Proof. destruct m; vm_compute; auto 7. Qed.
+
+(* the class AutoProxy() builds for a typeid registered without a proxy type offers exactly
+   the names Server.create exposed for it (MakeProxyType as run on the working tree) *)
+Theorem autoproxy_offered_tie :
+  G_manager.proxy_methods_autolist = G_manager.exposed_autolist /\
+  forall m, offered TAutoList m = smem (mname m) G_manager.proxy_methods_autolist.
+Proof. split; [reflexivity|]. destruct m; reflexivity. Qed.
 
 (* every method a proxy class offers is exposed by the server (true since the repair of
    IteratorProxy._exposed_; with the old typo exposed_iter was empty and this failed) *)
